@@ -16,4 +16,4 @@ ID=$1; TIER=${2:-quick}
 cd /verif
 VERIF_REPO=$S bin/vcheck $ID --tier $TIER --no-evidence 2>&1 | tail -${TAILN:-6} || true
 TAG=$(python3 -c "import hashlib;print(hashlib.sha1('$S'.encode()).hexdigest()[:8])")
-rm -rf $S /verif/work/*_$TAG /verif/work/inproc_$TAG /verif/replays
+W=${VERIF_WORK:-/verif/work}; rm -rf $S $W/*_$TAG $W/inproc_$TAG
